@@ -243,9 +243,11 @@ def rule_H3(ctx, sm):
               ctx.where(sm, c))
     # bottom level: exactly the same predicate picks cycmax=1 and coarse solve
     tests = [ast.unparse(n.test).replace(' ', '') for n in ast.walk(mg)
-             if isinstance(n, ast.If)]
+             if isinstance(n, (ast.If, ast.IfExp)) and
+             'clevel' in ast.unparse(n.test)]
+    pred = f'{N.level}=={var}.clevel[{var}.sc_dir]'
     ctx.check('C05.H3.ranking', 'multigrid bottom predicate used twice',
-              tests.count(f'{N.level}=={var}.clevel[{var}.sc_dir]') == 2,
+              tests.count(pred) >= 2 and set(tests) == {pred},
               'the coarsest-level predicate is not the same in the cycle '
               'setup and in the cycle body', ctx.where(sm, mg))
     # single writers of clevel / sc_dir / lr_dir
